@@ -53,7 +53,8 @@ fn secondaries(h1: u64, n: usize) -> Vec<u64> {
     let nn = n.max(2);
     let s1 = ((nn as u128 * primary_mixer().mix(h1) as u128) >> 64) as usize;
     let sm = secondary_mixer();
-    let mut v = vec![0, 1, 1u64 << 63, u64::MAX, sm.unmix(0), sm.unmix(u64::MAX)];
+    // (h1 itself too: an application with a single hash function passes the same value twice)
+    let mut v = vec![0, 1, 1u64 << 63, u64::MAX, sm.unmix(0), sm.unmix(u64::MAX), h1, !h1, h1.wrapping_add(1)];
     for s in [s1, (s1 + 1) % nn, (s1 + nn - 1) % nn] {
         let y = boundary_y(s, nn);
         v.push(sm.unmix(y));
@@ -393,7 +394,7 @@ pub fn run(tier: Tier, shard: Shard, rep: &mut Report) {
     selftest();
     rep.rule = "grid: shard counts (0..70 and large/power-of-two ones) x primary hashes whose mixed image sits on each \
         side of every shard boundary (+ raw extremes) x secondary hashes landing on the same / next / previous shard \
-        (+ raw extremes); per point: probe paths of get on an empty dir, location after put through a fresh handle, \
+        (+ raw extremes, + the primary hash itself, its complement and its successor); per point: probe paths of get on an empty dir, location after put through a fresh handle, \
         cross-handle lookup, secondary-shard hit/touch/set, ReadOnlyCache and stacked Cache lookups, all compared with \
         an independent reimplementation; every 41st point again under a base directory whose name is not valid UTF-8 and under one with a space and multi-byte characters. Non-trivial = distinctness fix-up applies or a first/last shard is involved."
         .into();
